@@ -104,7 +104,11 @@ CPPManifest(const CPPPreprocessor &parser, const string &args, const cppyyltype 
     parse_parameters(args, p, parameter_names);
     _num_parameters = parameter_names.size();
 
-    p++;
+    if (p < args.size()) {
+      // Skip the closing parenthesis (it is missing if the parameter list
+      // runs to the end of the line).
+      p++;
+    }
   } else {
     _has_parameters = false;
     _num_parameters = 0;
